@@ -231,6 +231,11 @@ pub fn serde_history_case(fl: &str, id: &str, g: &GraphSpec, rng: &mut Rng) -> V
             l.push(format!("g.insert 0 {k}"));
         }
     }
+    // sometimes a document that is rejected half-way (a good edge record, then one naming an undeclared key) comes first:
+    // what a failed deserialisation leaves behind must not reach the round trip that follows on the same thread
+    if rng.chance(30) {
+        l.push(format!("g.de 1 {} [[[0,1],[1,1]],[[0,1,5],[1,0,6],[0,7,1]]]", if rng.chance(50) { "json" } else { "cbor" }));
+    }
     // (a successful round trip replaces the world, so the second format sees the output of the first: either order)
     for fmt in if rng.chance(50) { ["json", "cbor"] } else { ["cbor", "json"] } {
         l.push(format!("g.ser 0 {fmt}"));
